@@ -134,7 +134,7 @@ const (
 // spinWatch.
 var awaitProgress func() int64
 
-// spinWatch decides "a goroutine spins inside vegeta": over at least 10 s AND at least 40 dumps (4000 sleep-and-poll rounds)
+// spinWatch decides "a goroutine spins inside vegeta": over at least 10 s AND at least 12 dumps (1200 sleep-and-poll rounds)
 // taken by this very process (so a process that got no processor time decides nothing) the
 // progress counter did not move, in every dump some goroutine was running or runnable inside
 // vegeta, and nothing else was on its way (no goroutine of the harness running, nothing asleep on
@@ -175,7 +175,7 @@ func (w *spinWatch) observe(gs []gInfo, p int64) bool {
 	}
 	w.samples++
 	w.frames = frames
-	return w.samples >= 40 && time.Since(w.since) > 10*time.Second
+	return w.samples >= 12 && time.Since(w.since) > 10*time.Second
 }
 
 // awaitEnd waits until done is closed. If instead every goroutine of the
